@@ -390,7 +390,7 @@ func c03RealTime(c *fw.Ctx, idx int) {
 		return
 	}
 	defer pub.Close()
-	nS := 4
+	nS := 10
 	subs := make([]*kit.Client, nS)
 	start := make([]time.Time, nS)
 	for i := range subs {
@@ -408,7 +408,7 @@ func c03RealTime(c *fw.Ctx, idx int) {
 		subs[i] = cc
 	}
 	for i := range subs {
-		time.Sleep(time.Duration(230+40*idx) * time.Millisecond) // different phases within the second
+		time.Sleep(time.Duration(97+7*idx) * time.Millisecond) // ten deliveries spread over the second: every deadline fraction occurs
 		if acked, _ := pub.Publish(fmt.Sprintf("c03rt/%d", i), []byte(fmt.Sprintf("rt-%d-%d", idx, i)), 1, false, kit.DefaultWait); !acked {
 			c.Inconclusive("publish not acknowledged")
 			return
